@@ -4,7 +4,9 @@ buffer phase and restart phase, fixed-point rule; structural/numeric consistency
 Decided here: (b) stationary auxiliary density at every buffer phase (SumRule/FixedPoint on the
 spec's own table + alignment), (c) the executed recurrence is the published one for k = 3..9:
 right coefficient on the right history entry at every phase, also after restart.
-(a) is monitored on the real code (XL energy/forces with P = converged D vs SCF).
+(a) is monitored on the real code (XL energy/forces with P = converged D vs SCF); the KSA kernel update at P != D must
+solve the Newton equation it reports (achieved residual by finite differences of the real D[P] = published Krylov error,
+per molecule of a batch, ranks 1..3).
 Not decided: linear stability over the response range, dt^2 scaling, convergence to BO.
 """
 
@@ -17,6 +19,45 @@ from harness import common, tlc
 
 PROP = "C09"
 KS = (3, 4, 5, 6, 7, 8, 9)
+
+
+def ksa_kernel(job):
+    """KSA kernel update at an auxiliary density P != D: the update u = -dP2dt2 must solve the Newton equation J u = D - P in
+    the Krylov space it reports, i.e. the residual achieved (J u by central differences of the real D[P], with the code's
+    convention J = 1/2 dD/dP - 1) equals the Krylov error the code publishes, per molecule of a batch."""
+    import zlib
+
+    from drivers import scf_driver
+    from seqm.ElectronicStructure import Electronic_Structure
+
+    mdlib.use_stub(False)
+    common.quiet_stdio()
+    names = job["mols"]
+    params = mdlib.seqm_params(scf_converger=[1], scf_eps=1e-10)
+    mol = scf_driver.make(names, params, displace=0.05)
+    mol.verbose = False
+    es = Electronic_Structure(params)
+    es(mol)
+    P0 = mol.dm.clone()
+    for k, nm in enumerate(names):
+        g = torch.Generator().manual_seed(77 + zlib.crc32(nm.encode()) % 100000)
+        n4 = 4 * len(scf_driver.MOLS[nm][0])
+        d = 0.01 * (torch.rand((n4, n4), generator=g, dtype=P0.dtype) - 0.5)
+        P0[k, :n4, :n4] += (d + d.T) * (P0[k, :n4, :n4] != 0).to(P0.dtype)
+    xp = {"k": 5, "max_rank": int(job["rank"]), "err_threshold": 0.0, "T_el": float(job["T_el"])}
+
+    def D(P):
+        es(mol, P0=P.clone(), dm_prop="XL-BOMD", xl_bomd_params=xp)
+        return mol.dm.detach().clone(), mol.dP2dt2.detach().clone(), mol.Krylov_Error.detach().clone()
+
+    D0, K, err = D(P0)
+    u = -K
+    eps = 1.0e-4
+    Dp, Dm = D(P0 + eps * u)[0], D(P0 - eps * u)[0]
+    f = D0 - P0
+    Ju = 0.5 * (Dp - Dm) / (2 * eps) - u
+    ach = (Ju - f).flatten(1).norm(dim=1) / f.flatten(1).norm(dim=1)
+    return {"achieved": [float(x) for x in ach], "reported": [float(x) for x in err], "update_norm": [float(x) for x in u.flatten(1).norm(dim=1)]}
 
 
 def validate(traces, scratch):
@@ -158,6 +199,22 @@ def main(tier):
                 rep.violation("xl_energy_differs_from_scf_at_P_equals_D", mon, engine="ksa")
             if mon["fixed_point_dev"] > 1e-12:
                 rep.violation("fixed_point_not_preserved", mon)
+        kjobs = [dict(mols=m, rank=r, T_el=t) for m in (["h2o"], ["h2o", "ch4"], ["ch4", "h2o"], ["h2o", "h2o", "nh3"]) for r in (1, 2, 3) for t in ((3000.0,) if tier == "quick" else (1500.0, 3000.0, 8000.0))]
+        kres = common.run_forked(kjobs, ksa_kernel, timeout=900)
+        kworst = 0.0
+        for j, rr in zip(kjobs, kres):
+            if not rr.get("ok"):
+                rep.machinery("KSA kernel monitor failed: " + str(rr.get("error")) + str(rr.get("tb", ""))[-300:])
+                continue
+            o = rr["result"]
+            for m, (a, b) in enumerate(zip(o["achieved"], o["reported"])):
+                dev = abs(a - b) / (1.0e-4 + 1.0e-2 * b)
+                kworst = max(kworst, dev)
+                if dev > 1.0 or o["update_norm"][m] == 0.0:
+                    rep.violation("ksa_kernel_update_does_not_solve_its_newton_equation", {"job": j, "molecule": m, "achieved_residual": a, "reported_krylov_error": b, "update_norm": o["update_norm"][m]},
+                                  engine="ksa", rank=j["rank"], batch=len(j["mols"]))
+        mon["ksa_kernel_jobs"] = len(kjobs)
+        mon["ksa_kernel_worst_dev_over_tol"] = kworst
         cov = {
             "states": states,
             "transitions": trans,
@@ -172,7 +229,7 @@ def main(tier):
             "rule": "k = 3..9 x {XL_BOMD, KSA_XL_BOMD} x {uninterrupted 3m+2 steps, crash/resume right after the checkpoint of step s}; non-trivial = with a restart",
             "exhaustive": tier == "thorough",
         }
-        return rep.finish(cov, assumptions=["history handling observed with a stub electronic structure (distinct densities every step)", "c = 0.95 mixing of the delta term modelled as coded",
+        return rep.finish(cov, assumptions=["history handling observed with a stub electronic structure (distinct densities every step)", "c = 0.95 mixing of the delta term modelled as coded", "KSA kernel monitor uses the code's convention J = 1/2 dD/dP - 1 (observation: the true Jacobian of the spin-summed density is twice that response)",
                                             "linear stability / dt^2 scaling / convergence to BO are not decided (numeric)"])
     finally:
         common.rm(scratch)
